@@ -560,7 +560,10 @@ SPEC = Spec(
         "behind tag APIs pass every field from self, tag-only transformations "
         "create nodes only through tag APIs. R05-IDENT-KEYED: the identity shortcut "
         "compares mappings by key. R05-DEDUP-KEY: the data-wrapper de-duplication "
-        "key identifies a view (pointer, shape, strides, dtype)."),
+        "key identifies a view (pointer, shape, strides, dtype). R05-POSITION: "
+        "enumerate() over a node's sequence field runs over the whole field, never "
+        "over a filtered view (positions among survivors are not positions in the "
+        "field)."),
     not_decided=(
         "Value preservation for all inputs; idempotence of deduplicate / dead-code "
         "elimination / MPMS; positional correctness inside a rebuilt tuple "
